@@ -368,11 +368,18 @@ def worker(job):
         return part.dump()
     rng = random.Random(job['seed'])
     for n in range(job['n']):
-        case = warcwork.gen_case(rng)
+        case = warcwork.gen_overlap_case(rng) if rng.random() < 0.12 else warcwork.gen_case(rng)
         if prop == 'C07':
             case['config']['cdx'] = True
             vary_content_types(rng, case)
-        if prop == 'C04':
+        if case.get('overlap'):
+            obs = warcwork.run_case(case)
+            part.evaluations += 1
+            part.count('cases_with_exchanges_in_flight_at_once')
+            part.count('exchanges_begun_while_another_was_in_flight', obs['overlaps'])
+            ORACLES[prop](obs, part, case)
+            note_nontrivial(part, obs, 'overlap')
+        elif prop == 'C04':
             # same script under several segmentations: blocks must be identical (metamorphic)
             ref_blocks = None
             for mode in ('whole', 'bytes', 'cut', 'random'):
